@@ -11,8 +11,15 @@ tie:   2-5 real callers of functions protected by `thunder_protection` - bare, a
        two-parameter ones `f(s, k)` whose key template leaves `s` out (callers agree on the key and differ in
        `s`, positional / keyword spelling, plain values and per-request objects) or - default template -
        contains both; "key" everywhere below is the cache key the arguments render to (sfimpl.key_id), not the
-       argument list.  After every scheduler step the observable state (what each caller has received, bodies
-       running / started per key) is compared with
+       argument list.  EXCEPTIONS come from a family of classes with non-trivial constructors (keyword-only,
+       multi-argument, message built in __init__, state in attributes / slots, explicit cause, notes; harness/sfexc.py)
+       and carry a payload derived from the raising execution's id: a caller "received E<shape>.<x>" only if what it
+       ended with equals, in every observable respect, what the body of execution x raised.  TIME: schedules contain
+       explicit time steps ("tick", d) that advance the virtual clock while bodies are suspended, with ttls of 1-2 s, so
+       callers arrive when the execution in flight is younger than, exactly as old as, or older than the ttl, and stored
+       results expire between calls; the property has no ttl carve-out and neither has the oracle.
+       After every scheduler step the observable state (what each caller has received, bodies
+       running / started per key, the clock) is compared with
          (a) the Lean model replaying the recorded trace (driver_c07), and
          (b) the property oracle below: the statement of C07 evaluated on the events the real run produced.
 """
@@ -22,7 +29,7 @@ import itertools
 import json
 from pathlib import Path
 
-from .. import sfimpl
+from .. import sfexc, sfimpl
 from ..core import ROOT, Check, Driver, HarnessError, ddmin, proof_stage
 from ..sched import enumerate_schedules
 
@@ -45,7 +52,14 @@ TRUSTED = [
     "harness: virtual event loop (harness/vtime.py), gate scheduler (harness/sched.py, harness/sfsched.py), scripted bodies "
     "and outcome canonicalisation (harness/sfimpl.py)",
     "cache decorators are modelled only as far as single-flight sees them (miss -> run the body and store a returned value; "
-    "hit -> deliver the stored value without running the body); their TTL behaviour is C02/C14 and no time passes here",
+    "hit -> deliver the stored value without running the body, as long as the backend holds it: now < stored_at + ttl); "
+    "early_ttl / soft_ttl are set far beyond the reach of a run whenever time passes, so `early` never starts its "
+    "background recalculation and `soft` never re-runs the body for a stored value (that is C02/C14)",
+    "time passes only through the schedule's explicit tick entries (harness/sfimpl.py SfLoop disables the virtual loop's "
+    "sleep(0)-spin rule); the clock read by cashews is harness/vtime.py's (time.time / time.monotonic / perf_counter / "
+    "datetime.now / loop.time all read it)",
+    "what a caller can observe of an exception is harness/sfexc.py observe(): class, args, str(), attributes, slots, notes, "
+    "explicit cause, __suppress_context__ - not object identity, not __traceback__, not the implicit __context__",
 ]
 
 
@@ -66,7 +80,8 @@ def item_of(ent, cinfo, variant):
     if kind == "c":
         c = cinfo[i]
         _, k_, n, k, val = c[:5]
-        item = f"c{i}:{sfimpl.key_id(variant, k_, sfimpl.arg_of(c))}:{sfimpl.gates_of(variant, n, k)}:{k}{val}"
+        out = f"e{val % sfexc.NSHAPES}.{i}" if k == "e" else f"{k}{val}"      # an exception's payload: the id of the execution
+        item = f"c{i}:{sfimpl.key_id(variant, k_, sfimpl.arg_of(c))}:{sfimpl.gates_of(variant, n, k)}:{out}"
         if sfimpl.TWO_PARAM.get(variant) == "omit":
             item += f":a{sfimpl.arg_of(c)}"        # the argument the key template leaves out (model: Act.callWith)
         return item
@@ -77,12 +92,14 @@ def model_lines(case, eff):
     callers = [tuple(c) for c in case["callers"]]
     cinfo = {c[0]: c for c in callers}
     keys = case_keys(case)
-    lines = ["case caching=%d callers=%s keys=%s" % (
-        1 if sfimpl.CACHING[case["variant"]] else 0,
+    lines = ["case caching=%d ttl=%d callers=%s keys=%s" % (
+        1 if sfimpl.CACHING[case["variant"]] else 0, sfimpl.ttl_ticks(case),
         ",".join(str(c[0]) for c in callers), ",".join(map(str, keys)))]
     for kind, arg in eff:
         if kind == "cancel":
             lines.append(f"do k{arg}")
+        elif kind == "tick":
+            lines.append(f"do t{arg}")
         else:
             lines.append("do " + " ".join(item_of(tuple(e), cinfo, case["variant"]) for e in arg))
     return lines
@@ -94,7 +111,7 @@ def impl_strings(case, run):
     out = []
     for o in run.obs:
         out.append(("," .join(o["callers"][c] for c in callers),
-                    ";".join(f"{k}:{o['running'].get(k, 0)}:{o['starts'].get(k, 0)}" for k in keys)))
+                    ";".join(f"{k}:{o['running'].get(k, 0)}:{o['starts'].get(k, 0)}" for k in keys), str(o["now"])))
     return out
 
 
@@ -106,7 +123,7 @@ def parse_answer(ans: str):
     for part in f["keys"].split(";") if f["keys"] else []:
         k, infl, br, bs, ex = part.split(":")
         keys.append((k, int(infl), br, bs))
-    return {"en": f["en"], "callers": f["callers"],
+    return {"en": f["en"], "callers": f["callers"], "now": f.get("now", "?"),
             "keys": ";".join(f"{k}:{br}:{bs}" for k, _, br, bs in keys),
             "inflight_max": max([i for _, i, _, _ in keys], default=0)}
 
@@ -119,12 +136,14 @@ def compare(case, run, answers):
         return 0, "driver rejected the case line: " + answers[0]
     if len(impl) != len(run.eff):
         return len(impl), "run ended before the last step was observed (stuck=%s)" % run.stuck
-    for i, ((ic, ik), ans) in enumerate(zip(impl, answers[1:])):
+    for i, ((ic, ik, inow), ans) in enumerate(zip(impl, answers[1:])):
         p = parse_answer(ans)
         if p is None:
             return i, "driver answered " + ans
         if "0" in p["en"]:
             return i, f"the real run took a step the model considers impossible here (enabled flags {p['en']})"
+        if inow != p["now"]:
+            return i, f"clock: impl at tick {inow}, model at tick {p['now']} (time passed that the schedule did not ask for)"
         if ic != p["callers"]:
             return i, f"callers: impl {ic} model {p['callers']}"
         if gated:
@@ -155,10 +174,13 @@ def say(code):
     return {"K": "CancelledError (K: of an execution that ended cancelled)", "C": "its own cancellation (C)"}.get(code, code)
 
 
-def code_of(kind, val):
+def code_of(kind, val, x):
+    """what execution x delivers according to its script"""
     if kind == "k":
         return "K"          # the execution ended cancelled: its waiters get CancelledError
-    return ("R" if kind == "r" else "E") + str(val)
+    if kind == "e":
+        return f"E{val % sfexc.NSHAPES}.{x}"      # THE exception its body raises (shape, payload of execution x)
+    return "R" + str(val)
 
 
 def oracle(case, run):
@@ -166,6 +188,8 @@ def oracle(case, run):
     caching = sfimpl.CACHING[case["variant"]]
     gated = sfimpl.GATED[case["variant"]]
     script = {c[0]: tuple(c) for c in case["callers"]}
+    ttl = sfimpl.ttl_ticks(case)
+    now = 0             # ticks; moved by the schedule's time steps only
     viol = []
     stats = {}
 
@@ -184,7 +208,7 @@ def oracle(case, run):
 
     def new_rec(c, k, outcome, is_hit, arg=0):
         r = {"id": c, "key": k, "outcome": outcome, "ended": is_hit, "hit": is_hit, "waiters": [c], "started": False,
-             "arg": arg}
+             "arg": arg, "t0": now}
         recs[c] = r
         inflight[k] = r
         expected[c] = r
@@ -200,25 +224,42 @@ def oracle(case, run):
         if t == "go":
             if len(ev[1]) >= 2:
                 hit("burst")
+        elif t == "tick":
+            now += ev[1]
+            if any(not r["ended"] for r in inflight.values()):
+                hit("time_passes_while_an_execution_is_in_flight")
+            if any(now >= exp for _, exp in cache_val.values()):
+                hit("stored_value_expired")
         elif t == "call":
             _, c, k, arg = ev
             r = inflight.get(k)
             if r is not None:
+                # no ttl carve-out: an execution in flight is joined however old it is
                 expected[c] = r
                 r["waiters"].append(c)
                 hit("late_join" if r["ended"] else "join")
+                if not r["ended"] and now > r["t0"]:
+                    age = now - r["t0"]
+                    hit("join_execution_younger_than_ttl" if age < ttl else
+                        "join_execution_exactly_ttl_old" if age == ttl else "join_execution_older_than_ttl")
                 if arg != r["arg"]:
                     hit("join_differs_in_argument_outside_key")
                 if r.get("body_done") and not r["ended"]:
                     hit("join_after_body_before_store")
                 elif not r["started"] and not r["hit"]:
                     hit("join_before_body_started")
-            elif caching and k in cache_val:
-                new_rec(c, k, code_of("r", cache_val[k]), True, arg)
+            elif caching and k in cache_val and now < cache_val[k][1]:
+                new_rec(c, k, code_of("r", cache_val[k][0], c), True, arg)
                 hit("cache_hit")
+                if now + 1 == cache_val[k][1]:
+                    hit("cache_hit_at_last_valid_tick")
             else:
+                if caching and k in cache_val:
+                    hit("call_after_stored_value_expired")
+                    if now == cache_val[k][1]:
+                        hit("call_exactly_at_expiry")
                 _, _, n, kind, val = script[c][:5]
-                new_rec(c, k, code_of(kind, val), False, arg)
+                new_rec(c, k, code_of(kind, val, c), False, arg)
                 if any(k2 != k and k2 >= 100 and (k2 - 100) // 10 == (k - 100) // 10 and not r2["ended"]
                        for k2, r2 in inflight.items()) and k >= 100:
                     hit("same_k_other_argument_in_key_runs_separately")
@@ -231,15 +272,15 @@ def oracle(case, run):
                 old = expected.get(x)
                 if old is not None and x in old["waiters"] and old["id"] != x:
                     old["waiters"].remove(x)
-                r = {"id": x, "key": k, "outcome": code_of(kind, val), "ended": False, "hit": False, "waiters": [x],
-                     "started": False, "arg": sfimpl.arg_of(script[x])}
+                r = {"id": x, "key": k, "outcome": code_of(kind, val, x), "ended": False, "hit": False, "waiters": [x],
+                     "started": False, "arg": sfimpl.arg_of(script[x]), "t0": now}
                 recs[x] = r
                 expected[x] = r
                 if k not in inflight or inflight[k]["ended"]:
                     inflight[k] = r
             if r["hit"]:           # the property allows a hit to be served without a body; if a body does run, its script counts
                 _, _, n, kind, val = script[x][:5]
-                r["outcome"] = code_of(kind, val)
+                r["outcome"] = code_of(kind, val, x)
             r["started"] = True
             r["hit"] = False
             r["ended"] = False
@@ -259,7 +300,7 @@ def oracle(case, run):
                     r["body_done"] = True          # still in flight: the decorator has yet to store the result
                 else:
                     r["ended"] = True
-                r["outcome"] = code_of(kind, val)
+                r["outcome"] = code_of(kind, val, x)
                 last_out[k] = r["outcome"]
                 live = [w for w in r["waiters"] if w not in cancelled]
                 if kind == "k" and how == "ok":
@@ -270,6 +311,8 @@ def oracle(case, run):
                     hit("orphan_execution_finished")
                 if kind == "e" and len(live) >= 2:
                     hit("exception_fanout")
+                    if val % sfexc.NSHAPES in sfexc.NONTRIVIAL:
+                        hit("exception_with_nontrivial_constructor_fanout")
                 if kind == "r" and len(live) >= 2:
                     hit("result_fanout")
             if how == "cancelled":
@@ -282,11 +325,13 @@ def oracle(case, run):
                     # goes on) will differ and say so
                     hit("exec_cancelled_with_no_waiter_left")
             elif caching and kind == "r":
-                cache_val[k] = val
+                cache_val[k] = (val, now + ttl)
         elif t == "stored":
             r = recs.get(ev[1])
             if r is not None:
                 r["ended"] = True
+                if r["key"] in cache_val:          # gated backends: the value is stored now, not when the body ended
+                    cache_val[r["key"]] = (cache_val[r["key"]][0], now + ttl)
         elif t == "cancel":
             c = ev[1]
             cancelled.add(c)
@@ -327,8 +372,14 @@ def oracle(case, run):
                                               f"{r['outcome']}), but no body was started for it - the call was served by "
                                               f"something that was already over"))
             else:
+                how = ""
+                got, raised = run.received_obs.get(c), run.raised_obs.get(r["id"])
+                if got is not None and raised is not None and r["outcome"].startswith("E"):
+                    fields = sfexc.diff_fields(got, raised)
+                    how = ("; what it received is not the exception the body raised - it differs in " + ", ".join(
+                        f"{f} (received {sfexc.obs_dict(got)[f]!r}, raised {sfexc.obs_dict(raised)[f]!r})" for f in fields))
                 viol.append(("wrong_outcome", f"caller {c} (key {r['key']}) received {say(fin)}, but the execution it had to share "
-                                              f"(started by caller {r['id']} for key {r['key']}) delivered {r['outcome']}"))
+                                              f"(started by caller {r['id']} for key {r['key']}) delivered {r['outcome']}{how}"))
     for x, r in recs.items():
         if r["started"] and not r["ended"]:
             viol.append(("exec_lost", f"the execution started by caller {x} never ran to its end"))
@@ -345,13 +396,16 @@ def oracle(case, run):
 def explicit(case, run):
     """the same run as a case with an explicit schedule (replays without choice points / cancel budget)"""
     two = case["variant"] in sfimpl.TWO_PARAM
-    return {"variant": case["variant"], "callers": [list(c) if two else list(c)[:5] for c in case["callers"]],
-            "schedule": [[k, [list(e) for e in a]] if k == "go" else [k, a] for k, a in run.eff]}
+    ex = {"variant": case["variant"], "callers": [list(c) if two else list(c)[:5] for c in case["callers"]],
+          "schedule": [[k, [list(e) for e in a]] if k == "go" else [k, a] for k, a in run.eff]}
+    if "ttl" in case:
+        ex["ttl"] = case["ttl"]
+    return ex
 
 
-def judge(case, cancel_budget=0):
-    run = sfimpl.execute(case, cancel_budget=cancel_budget)
-    if run.ticks > sfimpl.INNER_TTL * 4:
+def judge(case, cancel_budget=0, tick_budget=0, tick_sizes=()):
+    run = sfimpl.execute(case, cancel_budget=cancel_budget, tick_budget=tick_budget, tick_sizes=tick_sizes)
+    if run.ticks > sfimpl.MAX_RUN_TICKS:
         raise HarnessError(f"virtual time ran away during a C07 case ({run.ticks} ticks)")
     viol, stats = oracle(case, run)
     return run, viol, stats
@@ -410,6 +464,35 @@ def shrink(case, sig):
                 cur = cand
             else:
                 break
+    # shorter time steps (down to the shortest that still fails), then none at all
+    for idx in range(len(cur["schedule"])):
+        e = cur["schedule"][idx]
+        if e[0] != "tick":
+            continue
+        lo, hi = 1, e[1]            # invariant: hi fails
+        while lo < hi:
+            mid = (lo + hi) // 2
+            sc = list(cur["schedule"])
+            sc[idx] = ["tick", mid]
+            if fails(dict(cur, schedule=sc)):
+                hi = mid
+            else:
+                lo = mid + 1
+        sc = list(cur["schedule"])
+        sc[idx] = ["tick", hi]
+        cur = dict(cur, schedule=sc)
+    if "ttl" in cur and not any(e[0] == "tick" for e in cur["schedule"]):
+        cand = {k: v for k, v in cur.items() if k != "ttl"}
+        if fails(cand):
+            cur = cand
+    # plainer exceptions (shape 0 = an ordinary class rebuilt from .args) where the failure does not need the shape
+    for idx in range(len(cur["callers"])):
+        if cur["callers"][idx][3] == "e" and cur["callers"][idx][4] != 0:
+            cs = [list(c) for c in cur["callers"]]
+            cs[idx][4] = 0
+            cand = dict(cur, callers=cs)
+            if fails(cand):
+                cur = cand
     # fewer suspension points
     for idx in range(len(cur["callers"])):
         while cur["callers"][idx][2] > 0:
@@ -433,6 +516,12 @@ def trace_table(case, run, answers):
     return rows
 
 
+def exc_table(run):
+    """what the bodies raised and what the callers ended with, field by field"""
+    return {"raised_by_execution": {str(x): sfexc.obs_dict(o) for x, o in sorted(run.raised_obs.items())},
+            "received_by_caller": {str(c): sfexc.obs_dict(o) for c, o in sorted(run.received_obs.items())}}
+
+
 def report(chk: Check, case, run, viol, origin, answers=None, diff=None):
     ex = explicit(case, run)
     if viol:
@@ -446,6 +535,7 @@ def report(chk: Check, case, run, viol, origin, answers=None, diff=None):
         chk.violation(
             f"single-flight violated ({small['variant']}): {text}",
             {"case": small, "violations": [t for _, t in viol2], "final": run2.final, "max_concurrent_bodies": run2.maxrun,
+             "ttl_ticks": sfimpl.ttl_ticks(small), "exceptions": exc_table(run2),
              "trace": trace_table(small, run2, ans2), "events": [list(e) for e in run2.frozen], "origin": origin,
              "replay_cmd": "./check C07 --replay <this file>"},
             signature=sig)
@@ -455,6 +545,7 @@ def report(chk: Check, case, run, viol, origin, answers=None, diff=None):
             f"correspondence broken: real run differs from model SingleFlight at step {i} ({why}); the property oracle "
             f"found nothing wrong on this case (variant {case['variant']})",
             {"case": ex, "first_diff": i, "why": why, "final": run.final, "trace": trace_table(case, run, answers),
+             "ttl_ticks": sfimpl.ttl_ticks(ex), "exceptions": exc_table(run),
              "events": [list(e) for e in run.frozen], "origin": origin,
              "broken": "correspondence Model/SingleFlight.lean <-> cashews/decorators/locked.py, cashews/wrapper/decorators.py",
              "replay_cmd": "./check C07 --replay <this file>"},
@@ -474,13 +565,15 @@ def corpus_cases():
 def gen_case(rng, variant):
     m = rng.choice([2, 3, 3, 4, 4, 5])
     nk = rng.choice([1, 1, 2, 2, 3])
+    timed = rng.random() < 0.4          # time passes during the run; ttl of 1 or 2 seconds
+    ttl = rng.choice([8, 8, 16]) if timed else None
     callers = []
     for i in range(1, m + 1):
         key = 0 if rng.random() < 0.5 else rng.randrange(nk)
         p = rng.random()
         kind = "r" if p < 0.6 else ("e" if p < 0.82 else "k")
-        val = 10 + i if kind == "r" else rng.randrange(3)
-        c = [i, key, rng.randrange(4), kind, val]
+        val = 10 + i if kind == "r" else (rng.randrange(sfexc.NSHAPES) if kind == "e" else rng.randrange(3))
+        c = [i, key, rng.choice([1, 1, 2, 3, 0]) if timed else rng.randrange(4), kind, val]
         if variant in sfimpl.TWO_PARAM:
             c.append(rng.randrange(3))
         callers.append(c)
@@ -489,7 +582,9 @@ def gen_case(rng, variant):
     ncancel = 0
     for _ in range(rng.randrange(2, 4 + 3 * m)):
         p = rng.random()
-        if p < 0.55:
+        if timed and rng.random() < 0.25:
+            sched.append(["tick", rng.choice([1, ttl - 1, ttl, ttl + 1, ttl + 1, 2 * ttl])])
+        elif p < 0.55:
             sched.append(rng.randrange(6))
         elif p < 0.8:
             k = rng.choice([2, 2, 3, m])
@@ -497,7 +592,58 @@ def gen_case(rng, variant):
         elif ncancel < 2:
             ncancel += 1
             sched.append(["cancel", rng.randrange(1, m + 1)])
-    return {"variant": variant, "callers": callers, "schedule": sched}
+    case = {"variant": variant, "callers": callers, "schedule": sched}
+    if timed:
+        case["ttl"] = ttl
+    return case
+
+
+def timed_programs(thorough: bool):
+    """(callers, variants, opts): programs enumerated with TIME STEPS as an extra branch at every scheduler step (opts:
+    ttl in ticks, the sizes a time step can have, how many time steps a schedule may contain, cancellations)"""
+    ALL = sfimpl.VARIANTS
+    CACHED = [v for v in ALL if sfimpl.CACHING[v]]
+    progs = []
+    # an execution in flight for exactly ttl / ttl+1 ticks (thorough: 1, 2, ttl, ttl+1) when the second caller arrives,
+    # at every point of every interleaving: it must be joined every time (the property has no ttl carve-out); every variant
+    two = [[1, 0, 1, "r", 7, 0], [2, 0, 1, "e", 3, 1]]
+    if thorough:
+        progs.append((two, ALL, {"ttl": 8, "ticks": [8, 1], "tick_budget": 2, "cancel_budget": 0}))
+        progs.append((two, ALL, {"ttl": 8, "ticks": [9], "tick_budget": 1, "cancel_budget": 1}))
+    else:
+        progs.append((two, ALL, {"ttl": 8, "ticks": [8, 9], "tick_budget": 1, "cancel_budget": 0}))
+    # a stored result 1, 2, 7 (last valid tick), 8 (= ttl: gone) ticks old when the next call arrives
+    exp = {"ttl": 8, "ticks": [7, 1], "tick_budget": 2, "cancel_budget": 0}
+    if thorough:
+        progs.append(([[1, 0, 0, "r", 7, 0], [2, 0, 1, "r", 8, 1], [3, 0, 0, "e", 4, 0]],
+                      [v for v in CACHED if not sfimpl.GATED[v]] + ["cache_gated", "bare"], exp))
+    else:
+        progs.append(([[1, 0, 0, "r", 7, 0], [2, 0, 1, "r", 8, 1]], ["cache", "early", "soft", "cache_lock"], exp))
+    if thorough:
+        two_s = {"ttl": 16, "ticks": [16, 17], "tick_budget": 1, "cancel_budget": 1}
+        progs.append(([[1, 0, 2, "e", 5, 0], [2, 0, 0, "r", 8, 1], [3, 0, 1, "k", 1, 0]], ALL, two_s))
+        progs.append(([[1, 0, 1, "r", 7, 0], [2, 1, 1, "e", 8, 0], [3, 0, 0, "r", 9, 1]],
+                      ["bare", "cache", "soft_omit", "early_default2"],
+                      {"ttl": 8, "ticks": [9], "tick_budget": 2, "cancel_budget": 0}))
+        progs.append(([[1, 0, 1, "r", 7, 0], [2, 0, 0, "r", 8, 1], [3, 0, 1, "e", 6, 2], [4, 0, 0, "r", 9, 0]],
+                      ["cache", "early_omit", "soft_gated", "cache_lock_omit"],
+                      {"ttl": 8, "ticks": [9], "tick_budget": 1, "cancel_budget": 0}))
+    return progs
+
+
+def exception_programs(thorough: bool):
+    """every exception shape delivered to a starter and joiners, in every interleaving x one cancellation"""
+    ALL = [v for v in sfimpl.VARIANTS if not sfimpl.GATED[v]]
+    progs = []
+    rot = 0
+    for shape in range(sfexc.NSHAPES):
+        if shape < 3 and not thorough:
+            continue
+        nv = 4 if thorough else 2
+        vs = [ALL[(rot + j * 5) % len(ALL)] for j in range(nv)]
+        rot += 3
+        progs.append(([[1, 0, 1, "e", shape, 0], [2, 0, 0, "r", 8, 1], [3, 0, 1, "e", (shape + 1) % sfexc.NSHAPES, 0]], vs))
+    return progs
 
 
 def programs(thorough: bool):
@@ -506,7 +652,7 @@ def programs(thorough: bool):
     ALL = sfimpl.VARIANTS
     TWO = list(sfimpl.TWO_PARAM)
     progs = []
-    outs = [("r", 7), ("e", 1)]
+    outs = [("r", 7), ("e", 3)]
     if not thorough:
         # the body ENDS CANCELLED (three ways), a second caller of the same key arrives at every possible moment -
         # while it runs (shares the CancelledError) or after it is over (must start a new execution); every variant once
@@ -593,7 +739,7 @@ def run(chk: Check) -> int:
     distinct = set()
     interesting = {}
     variants_hist = {}
-    step_hist = {"call": 0, "bodyStep": 0, "cancel": 0, "burst": 0}
+    step_hist = {"call": 0, "bodyStep": 0, "cancel": 0, "burst": 0, "tick": 0}
     samples = []
     exhaustive_info = []
     max_conc = 0
@@ -613,6 +759,8 @@ def run(chk: Check) -> int:
             for k, a in r.eff:
                 if k == "cancel":
                     step_hist["cancel"] += 1
+                elif k == "tick":
+                    step_hist["tick"] += 1
                 else:
                     if len(a) > 1:
                         step_hist["burst"] += 1
@@ -623,7 +771,9 @@ def run(chk: Check) -> int:
             max_conc = max([max_conc] + list(r.maxrun.values()))
             nontrivial = any(k in stats for k in ("join", "late_join", "join_after_body_before_store", "cancel_one_of_several_waiters", "cancel_last_waiter",
                                                   "cancel_creator", "orphan_execution_finished", "exception_fanout",
-                                                  "execution_ended_cancelled", "join_differs_in_argument_outside_key"))
+                                                  "execution_ended_cancelled", "join_differs_in_argument_outside_key",
+                                                  "join_execution_exactly_ttl_old", "join_execution_older_than_ttl",
+                                                  "call_after_stored_value_expired"))
             if nontrivial:
                 distinct.add(json.dumps([case["variant"], case["callers"], r.eff], sort_keys=True, default=list))
             if len(samples) < 4 and nontrivial and "cancel_one_of_several_waiters" in stats and len(r.eff) <= 8 \
@@ -647,8 +797,8 @@ def run(chk: Check) -> int:
                 ndiffs[0] += 1
         pending.clear()
 
-    def feed(origin, case, cancel_budget=0):
-        r, viol, stats = judge(case, cancel_budget)
+    def feed(origin, case, cancel_budget=0, tick_budget=0, tick_sizes=()):
+        r, viol, stats = judge(case, cancel_budget, tick_budget, tick_sizes)
         pending.append((origin, case, r, viol, stats))
         if len(pending) >= 400:
             flush()
@@ -664,9 +814,11 @@ def run(chk: Check) -> int:
     # 2. exhaustive: all interleavings x one cancellation anywhere, small programs, every variant
     per_prog_limit = chk.budget(3000, 40000)
     variants = sfimpl.VARIANTS
-    progs = programs(chk.thorough)
+    progs = timed_programs(chk.thorough) + exception_programs(chk.thorough) + programs(chk.thorough)
     big_rot = 0
-    for pi, (callers, vs) in enumerate(progs):
+    for pi, prog in enumerate(progs):
+        callers, vs = prog[0], prog[1]
+        opts = prog[2] if len(prog) > 2 else {}
         vs = list(vs)
         vi = 0
         while vi < len(vs):
@@ -676,15 +828,20 @@ def run(chk: Check) -> int:
                 break
             last = {}
 
-            def run_once(prefix, v=v, callers=callers):
-                case = {"variant": v, "callers": callers, "schedule": list(prefix)}
-                last["r"] = feed(f"enum:{v}:{pi}", case, cancel_budget=1)
+            def run_once(prefix, v=v, callers=callers, opts=opts):
+                case = {"variant": v, "callers": callers if v in sfimpl.TWO_PARAM else [c[:5] for c in callers],
+                        "schedule": list(prefix)}
+                if "ttl" in opts:
+                    case["ttl"] = opts["ttl"]
+                last["r"] = feed(f"enum:{v}:{pi}", case, cancel_budget=opts.get("cancel_budget", 1),
+                                 tick_budget=opts.get("tick_budget", 0), tick_sizes=opts.get("ticks", ()))
                 return last["r"].branching
 
             count = 0
             for _ in enumerate_schedules(run_once, limit=per_prog_limit):
                 count += 1
-            exhaustive_info.append({"variant": v, "callers": callers, "schedules": count, "complete": count < per_prog_limit})
+            exhaustive_info.append({"variant": v, "callers": callers, "schedules": count, "complete": count < per_prog_limit,
+                                    **({"time": opts} if opts else {})})
             if vi == 1 and count > BIG and len(vs) > 2:
                 # a large schedule space: the first variant plus one of the others (in rotation) instead of all of them
                 vs = [vs[0], vs[1 + big_rot % (len(vs) - 1)]]
@@ -692,7 +849,7 @@ def run(chk: Check) -> int:
     flush()
 
     # 3. random schedules with bursts and up to two cancellations
-    n = chk.budget(6000, 15000)
+    n = chk.budget(5000, 15000)
     for i in range(n):
         if found >= 3:
             break
@@ -716,13 +873,16 @@ def run(chk: Check) -> int:
                 "at least one of: a call joining an execution in flight (join / late_join), a cancellation of a waiting caller "
                 "(one of several waiters, last waiter, creator), an execution finishing with every waiter cancelled, an exception "
                 "delivered to >= 2 callers, an execution that ended cancelled, a call joining an execution started with a different "
-                "value of an argument outside the key; distinct = distinct (variant, callers, effective trace)",
+                "value of an argument outside the key, a call joining an execution that has been in flight for exactly / for more "
+                "than the ttl, a call arriving after the stored result expired; distinct = distinct (variant, callers, effective "
+                "trace)",
         "samples": samples,
         "exhaustive": bool(complete),
         "exhaustive_subspaces": {
             "what": "for each listed (variant, callers): every interleaving of caller starts and body suspension points, combined "
                     "with no cancellation or one cancellation of any caller at any scheduler step (enumerate_schedules over "
-                    "choice points, cancellation as an extra branch)",
+                    "choice points, cancellation as an extra branch); entries with 'time': additionally up to tick_budget time "
+                    "steps of the listed sizes at any scheduler step (ttl in ticks), cancellations as per cancel_budget",
             "programs_completely_enumerated": len(complete),
             "programs_cut_by_limit": len(exhaustive_info) - len(complete),
             "schedules": sum(e["schedules"] for e in exhaustive_info),
@@ -739,8 +899,12 @@ def run(chk: Check) -> int:
         "trusted_base": TRUSTED,
         "partial": "asyncio itself is not modelled (A1, A2 are assumptions exercised, not proved); cancellation is delivered at "
                    "scheduler granularity (between event-loop quiescent points), not inside the few loop iterations between a task's "
-                   "completion and its done-callbacks; more than 5 callers / 3 keys / 3 suspension points, passage of time "
-                   "(cache expiry during a run) and the redis backend are not sampled; an execution task cancelled from OUTSIDE "
+                   "completion and its done-callbacks; more than 5 callers / 3 keys / 3 suspension points and the redis backend "
+                   "are not sampled; time passes only in explicit steps between quiescent points (ttl 1-2 s, steps of 1 tick .. "
+                   "2 x ttl), bodies do not sleep by themselves; whenever time passes early_ttl / soft_ttl are out of reach, so "
+                   "`early`'s background recalculation (which runs the wrapped function OUTSIDE thunder_protection's table) and "
+                   "`soft`'s re-run of a soft-expired value are not exercised here; returned values are small ints (no results "
+                   "with non-trivial copy / identity behaviour); an execution task cancelled from OUTSIDE "
                    "(somebody holding the task object calls .cancel()) is not scripted - only bodies that end cancelled by "
                    "themselves; key templates are limited to 'leaves one parameter out' / 'default: all parameters' of a "
                    "two-parameter function (key rendering in general is C08)",
